@@ -23,7 +23,7 @@ var gobRoots = []string{"Swagger", "Operation", "Parameter", "Schema", "Response
 // index of that parameter, or -1.
 func (c *Ctx) gobHelperParam(g *types.Func, method string) int {
 	gfd := c.decl(g)
-	if gfd == nil || gfd.Body == nil || gfd.Recv != nil {
+	if gfd == nil || gfd.Body == nil {
 		return -1
 	}
 	idx := -1
@@ -36,11 +36,34 @@ func (c *Ctx) gobHelperParam(g *types.Func, method string) int {
 		if isM && pkg == "encoding/gob" && (r == "Encoder" && name == "Encode" && method == "GobEncode" || r == "Decoder" && name == "Decode" && method == "GobDecode") {
 			if id, ok := unparen(call.Args[0]).(*ast.Ident); ok {
 				idx = c.paramIndex(gfd, c.objOf(id))
+				if idx < 0 && gfd.Recv != nil && c.objOf(id) == c.recvObj(gfd) {
+					idx = gobHelperReceiver
+				}
 			}
 		}
 		return true
 	})
+	if gfd.Recv != nil && idx != gobHelperReceiver {
+		return -1
+	}
 	return idx
+}
+
+// gobHelperReceiver: the helper is a method that hands its own receiver to the gob codec.
+const gobHelperReceiver = 1 << 20
+
+// gobHelperArg picks, at a call site of a gob helper, the expression that ends up in the gob codec.
+func (c *Ctx) gobHelperArg(call *ast.CallExpr, pi int) ast.Expr {
+	if pi == gobHelperReceiver {
+		if se, ok := unparen(call.Fun).(*ast.SelectorExpr); ok {
+			return se.X
+		}
+		return nil
+	}
+	if pi >= 0 && pi < len(call.Args) {
+		return call.Args[pi]
+	}
+	return nil
 }
 
 func (c *Ctx) gobCodecValue(fd *ast.FuncDecl, method string) (types.Type, ast.Expr) {
@@ -53,8 +76,8 @@ func (c *Ctx) gobCodecValue(fd *ast.FuncDecl, method string) (types.Type, ast.Ex
 			return true
 		}
 		if g, ok := c.callee(call).(*types.Func); ok && g.Pkg() == c.Types {
-			if pi := c.gobHelperParam(g, method); pi >= 0 && pi < len(call.Args) {
-				arg = call.Args[pi]
+			if a := c.gobHelperArg(call, c.gobHelperParam(g, method)); a != nil {
+				arg = a
 				t = c.typeOf(arg)
 				if method == "GobDecode" {
 					t = derefType(t)
